@@ -187,7 +187,9 @@ def apply_op(b: Built, op: dict) -> str:
         elif k == 'rename':
             b.objs[op['h']].name = op['value']
         elif k == 'nfdata':
-            b.lfs[op['lf']].add_no_format_frame_data(b.objs[op['nf']], decode_value(op['data'], b.objs))
+            rec = b.lfs[op['lf']].add_no_format_frame_data(b.objs[op['nf']], decode_value(op['data'], b.objs))
+            if op.get('h'):
+                b.objs[op['h']] = rec
         elif k == 'hc':
             from dliswriter import high_compatibility_mode
             if op['enter']:
